@@ -99,7 +99,7 @@ Definition Inv1 (s : state) : Prop := forall c pc i pi,
   get s c = Some pc -> parent pc = Some i -> lp pc = true -> get s i = Some pi -> st pi = Dead -> told1 pc i.
 
 Definition told2 (pc : proc) (c i : nat) (pi : proc) : Prop :=
-  match st pc with Alive => In i (mbox pc) | Dead => In c (mbox pi) | _ => True end.
+  match st pc with Alive => In i (mbox pc) | Dead => In c (mbox pi) | Dying b => b = false | Shutting _ => True end.
 
 (* the shutdown protocol: every member of a wait set has been told by the supervisor, or is going down, or has
    gone and its exit signal is pending in the supervisor's mailbox *)
@@ -166,9 +166,10 @@ Proof. intros Hwf Hc Hp. destruct (Hwf c pc Hc) as [Ha _]. specialize (Ha c Hp).
 
 (* a registered process leaves node.processes *)
 Lemma dying_Inv s i pi b : Inv s -> get s i = Some pi -> registered (st pi) = true ->
+  (b = true -> forall q pq w, parent pi = Some q -> get s q = Some pq -> st pq = Shutting w -> ~ In i w) ->
   Inv (upd s i (fun p => set_st p (Dying b))).
 Proof.
-  intros (Hwf & H1 & H2) Hi Hr. split; [|split].
+  intros (Hwf & H1 & H2) Hi Hr Hnw. split; [|split].
   - intros c pc' Hc. upd_at Hc pc Hc. destruct (Hwf c pc Hc) as [Ha Hb].
     destruct (c =? i); cbn; auto. split; auto. discriminate.
   - intros c pc' i0 pi0' Hc Hp Hl Hi0 Hd. upd_at Hc pc Hc. upd_at Hi0 pi0 Hi0.
@@ -179,13 +180,15 @@ Proof.
     destruct (H2 i0 pi0 w c Hi0 Hs Hin) as (pc & Hc & Hp & Hl & T).
     rewrite get_upd, Hc. destruct (Nat.eqb_spec c i) as [->|Hn]; cbn [option_map].
     + eexists; split; [reflexivity|]. cbn. repeat split; auto.
+      assert (pc = pi) by congruence. subst pc. unfold told2. cbn.
+      destruct b; [exfalso | reflexivity]. eapply (Hnw eq_refl i0 pi0 w); eauto.
     + exists pc. repeat split; auto.
 Qed.
 
 (* unregisterProcess is through: everybody concerned has been told *)
 Lemma dead_Inv s i pi b : Inv s -> get s i = Some pi -> st pi = Dying b ->
   (forall c pc, get s c = Some pc -> parent pc = Some i -> lp pc = true -> told1 pc i) ->
-  (forall q pq w, parent pi = Some q -> lc pi = true -> get s q = Some pq -> st pq = Shutting w -> In i (mbox pq)) ->
+  (forall q pq w, b = false -> parent pi = Some q -> lc pi = true -> get s q = Some pq -> st pq = Shutting w -> In i (mbox pq)) ->
   Inv (upd s i (fun p => set_st p Dead)).
 Proof.
   intros (Hwf & H1 & H2) Hi Hs F1 F2. split; [|split].
@@ -199,7 +202,7 @@ Proof.
     destruct (H2 i0 pi0 w c Hi0 Hs0 Hin) as (pc & Hc & Hp & Hl & T).
     rewrite get_upd, Hc. destruct (Nat.eqb_spec c i) as [->|Hn]; cbn [option_map].
     + eexists; split; [reflexivity|]. cbn. repeat split; auto.
-      assert (pc = pi) by congruence. subst pc. unfold told2. cbn. eapply F2; eauto.
+      assert (pc = pi) by congruence. subst pc. unfold told2 in *. cbn. rewrite Hs in T. eapply F2; eauto.
     + exists pc. repeat split; auto.
 Qed.
 
@@ -326,10 +329,10 @@ Proof.
     assert (consumer faithful b i pi c pc = true) as ->.
     { unfold consumer. apply is_parent_true in Hp. rewrite Hp, Hl. cbn. rewrite orb_true_r. cbn. apply orb_true_r. }
     apply told1_push_self.
-  - intros q pq1 w Hp Hl Hq Hsq. rewrite mp_parent in Hp. rewrite mp_lc in Hl.
+  - intros q pq1 w Hb Hp Hl Hq Hsq. rewrite mp_parent in Hp. rewrite mp_lc in Hl.
     apply get_bcast_mp in Hq as (pq & Hq & ->). rewrite mp_st in Hsq.
     assert (consumer faithful b i pi q pq = true) as ->.
-    { unfold consumer. apply is_parent_true in Hp. rewrite Hp, Hl. reflexivity. }
+    { unfold consumer. apply is_parent_true in Hp. rewrite Hb, Hp, Hl. reflexivity. }
     apply push_in. rewrite Hsq. reflexivity.
 Qed.
 
@@ -363,7 +366,7 @@ Proof.
     { apply registered_cases in Hr as [Hr|(w & Hr)]; auto. rewrite Hr in Hsh. specialize (Hsh eq_refl). discriminate. }
     destruct (trap pi && negb (is_parent pi f)) eqn:Ht; inversion Hc; subst s'.
     + apply andb_true_iff in Ht as [_ Ht]. apply negb_true_iff in Ht. eapply pop_Inv; eauto.
-    + eapply dying_Inv; eauto.
+    + eapply dying_Inv; eauto. discriminate.
   - destruct (st pi) as [|w| |] eqn:Hs; try discriminate.
     + destruct (is_child s i f && negb d) eqn:Hch; inversion Hc; subst s'.
       * apply andb_true_iff in Hch as [Hch _]. unfold is_child in Hch.
@@ -373,20 +376,25 @@ Proof.
         apply is_parent_true in Hpp. specialize (Hpar f Hpp). lia.
       * eapply begin_shutdown_Inv; eauto.
     + inversion Hc; subst s'. eapply drain_Inv; eauto.
-  - inversion Hc; subst s'. eapply dying_Inv; eauto.
+  - inversion Hc; subst s'. eapply dying_Inv; eauto. discriminate.
 Qed.
 
 Lemma finish_Inv s i s' : Inv s -> finish s i = Some s' -> Inv s'.
 Proof.
   intros HI Hf. unfold finish in Hf. destruct (get s i) as [pi|] eqn:Hi; [|discriminate].
   destruct (st pi) as [|[|]| |] eqn:Hs; try discriminate. inversion Hf; subst s'.
-  eapply dying_Inv; eauto. rewrite Hs. reflexivity.
+  eapply dying_Inv; eauto; [rewrite Hs; reflexivity | discriminate].
 Qed.
 
 Lemma terminate_Inv s i b s' : Inv s -> terminate s i b = Some s' -> Inv s'.
 Proof.
   intros HI Ht. unfold terminate in Ht. destruct (get s i) as [pi|] eqn:Hi; [|discriminate].
-  destruct (registered (st pi)) eqn:Hr; [|discriminate]. inversion Ht; subst s'. eapply dying_Inv; eauto.
+  destruct (registered (st pi) && negb (b && awaited s i pi)) eqn:Hr; [|discriminate].
+  apply andb_true_iff in Hr as [Hr Ha]. inversion Ht; subst s'. eapply dying_Inv; eauto.
+  intros -> q pq w Hp Hq Hsq Hin. cbn in Ha. apply negb_true_iff in Ha.
+  unfold awaited in Ha. rewrite Hp, Hq, Hsq in Ha. unfold memb in Ha.
+  assert (existsb (Nat.eqb i) w = true) as X by (apply existsb_exists; exists i; split; [exact Hin | apply Nat.eqb_refl]).
+  congruence.
 Qed.
 
 Theorem step_Inv s l s' : Inv s -> step faithful s l = Some s' -> Inv s'.
